@@ -6,6 +6,7 @@ import (
 	"flag"
 	"fmt"
 	"os"
+	"runtime/debug"
 	"time"
 
 	"verif/harness/agentx"
@@ -60,4 +61,62 @@ func sortRun(args []string) {
 	}
 	sk.close()
 	fmt.Printf("DONE arrays=%d records=%d timeouts=%d\n", len(arrays), sk.n, dead)
+}
+
+func init() {
+	extras["collate-tables"] = collateTables
+	extras["collate-cyclic"] = collateCyclic
+}
+
+func readUniverse(path string) agentx.Universe {
+	var u = agentx.Universe{}
+	var f, err = os.Open(path)
+	if err != nil {
+		fmt.Fprintln(os.Stderr, err)
+		os.Exit(2)
+	}
+	var sc = bufio.NewScanner(f)
+	sc.Buffer(make([]byte, 1<<20), 1<<26)
+	for sc.Scan() {
+		var x struct {
+			U string      `json:"u"`
+			D agentx.Desc `json:"d"`
+		}
+		if err := json.Unmarshal(sc.Bytes(), &x); err != nil {
+			fmt.Fprintln(os.Stderr, "bad universe line:", err)
+			os.Exit(2)
+		}
+		u[x.U] = append(u[x.U], x.D)
+	}
+	return u
+}
+
+// collate-tables: rank / compare tables of the real collator over the leaf
+// corner values and the structural universe exported by TLC.
+func collateTables(args []string) {
+	var fs = flag.NewFlagSet("collate-tables", flag.ExitOnError)
+	var univ = fs.String("universe", "", "universe (ndjson)")
+	var out = fs.String("out", "", "tables (ndjson)")
+	fs.Parse(args)
+	var sk = newSink(*out, false)
+	agentx.LeafTables(func(t agentx.Table) { sk.put(t) })
+	agentx.StructTables(readUniverse(*univ), func(t agentx.Table) { sk.put(t) })
+	sk.close()
+	fmt.Printf("DONE tables=%d\n", sk.n)
+}
+
+// collate-cyclic: self-containing values (run in a process of its own).
+func collateCyclic(args []string) {
+	var fs = flag.NewFlagSet("collate-cyclic", flag.ExitOnError)
+	var univ = fs.String("universe", "", "universe (ndjson)")
+	var out = fs.String("out", "", "tables (ndjson)")
+	var cases = fs.String("cases", "", "cyclic case results (ndjson)")
+	fs.Parse(args)
+	debug.SetMaxStack(256 << 20)
+	var sk = newSink(*out, false)
+	var ck = newSink(*cases, false)
+	agentx.Cyclic(readUniverse(*univ), func(c agentx.CyclicResult) { ck.put(c); ck.w.Flush() }, func(t agentx.Table) { sk.put(t) })
+	sk.close()
+	ck.close()
+	fmt.Printf("DONE tables=%d cases=%d\n", sk.n, ck.n)
 }
